@@ -107,7 +107,7 @@ impl<T> VMutex<T> {
 pub struct CommitProof { _p: () }
 /// THE head proof of the commit tree of a log that holds exactly these events: leaf i is the commit hash
 /// `H(enc(event i))` (unit log [encode_event_commit_is_hash], [append_exact]: tree leaves == commits of the rows),
-/// the proof is `tree.proof(&[len - 1])` (= `CommitTree::head`, unit tree).  A function of the events.
+/// the proof is `CommitTree::head()` (unit tree).  A function of the events.
 pub uninterp spec fn head_proof(evs: Seq<WriteEventV>) -> CommitProof;
 /// `sos_core::commit::CommitTree` of an event log
 #[verifier::external_body]
@@ -115,15 +115,13 @@ pub struct CommitTree { _p: () }
 impl CommitTree {
     /// the events whose commit hashes are the leaves
     pub uninterp spec fn of(&self) -> Seq<WriteEventV>;
-    /// crates/core/src/commit/tree.rs `len`: number of leaves
+    /// crates/core/src/commit/tree.rs:79 `head`: unit tree [head_err_iff_empty], [head_is_proof_of_last_leaf] — Err iff the
+    /// tree has no leaf, otherwise the proof of the last leaf, i.e. THE head proof of the log
     #[verifier::external_body]
-    pub fn len(&self) -> (r: usize)
-        ensures r == self.of().len(),
-    { unimplemented!() }
-    /// tree.rs `proof(&[i])`: Err for an index that is not a leaf (unit tree); for the LAST leaf it is the head proof
-    #[verifier::external_body]
-    pub fn proof(&self, leaf_indices: &[usize]) -> (r: core::result::Result<CommitProof, CoreError>)
-        ensures r is Ok && leaf_indices@.len() == 1 && leaf_indices@[0] as int == self.of().len() - 1 && self.of().len() > 0 ==> r->Ok_0 == head_proof(self.of()),
+    pub fn head(&self) -> (r: core::result::Result<CommitProof, CoreError>)
+        ensures
+            r is Err <==> self.of().len() == 0,
+            r is Ok ==> r->Ok_0 == head_proof(self.of()),
     { unimplemented!() }
 }
 pub open spec fn wviews(s: Seq<WriteEvent>) -> Seq<WriteEventV> { Seq::new(s.len(), |i: int| s[i]@) }
@@ -278,6 +276,44 @@ pub struct AccessPoint { _p: () }
 impl AccessPoint {
     pub uninterp spec fn vv(&self) -> VaultV;
     pub uninterp spec fn key(&self) -> Option<PrivateKeyV>;
+    /// crates/backend/src/access_point.rs:26 `from_vault` -> vault access_point.rs `AccessPoint::new(vault)`: holds the vault, locked
+    #[verifier::external_body]
+    pub fn from_vault(vault: Vault) -> (r: AccessPoint)
+        ensures r.vv() == vault@ && r.key() is None,
+    { unimplemented!() }
+    /// `SecretAccess::vault` (vaultmem [vault_is_field])
+    #[verifier::external_body]
+    pub fn vault(&self) -> (r: &Vault)
+        ensures r@ == self.vv(),
+    { unimplemented!() }
+    /// `self.vault().id()`
+    #[verifier::external_body]
+    pub fn id(&self) -> (r: &VaultId)
+        ensures r.0@ == self.vv().head.summary.id,
+    { unimplemented!() }
+    /// vaultmem [vault_meta_needs_key_that_opens] + [meta_is_decrypt_of_blob]
+    #[verifier::external_body]
+    pub fn vault_meta(&self) -> (r: BkResult<VaultMeta>)
+        ensures r is Ok ==> self.key() is Some && self.vv().head.meta is Some && meta_of(self.vv(), self.key()->Some_0) == Some(r->Ok_0@),
+    { unimplemented!() }
+    /// vaultmem [read_is_decrypt_of_stored]
+    #[verifier::external_body]
+    pub fn read_secret(&self, id: &SecretId) -> (r: BkResult<Option<(SecretMeta, Secret, ReadEvent)>>)
+        ensures r is Ok ==> self.key() is Some && (r->Ok_0 is Some <==> m_has(self.vv().secrets, id.0@))
+            && (r->Ok_0 matches Some(t) ==> read_spec(self.vv(), self.key()->Some_0, id.0@) == Some((t.0@, t.1@))),
+    { unimplemented!() }
+    /// vaultmem [create_keeps_inv], [event_is_ciphertext_only], [create_then_read] (symmetric cipher, an id that is not
+    /// present): head and key kept, the new row is pushed last and reads back as (meta, secret)
+    #[verifier::external_body]
+    pub fn create_secret(&mut self, secret_data: &SecretRow) -> (r: BkResult<WriteEvent>)
+        ensures
+            final(self).key() == old(self).key(),
+            r is Ok ==> final(self).vv().head == old(self).vv().head && old(self).key() is Some,
+            r is Ok && is_symmetric(old(self).vv().head.summary.cipher) && !m_has(old(self).vv().secrets, secret_data.id.0@) ==> ({
+                let n = old(self).vv().secrets.len() as int; let s1 = final(self).vv().secrets;
+                s1.len() == n + 1 && s1.take(n) == old(self).vv().secrets && s1[n].0 == secret_data.id.0@
+                && read_row(old(self).vv().head.summary.cipher, old(self).key()->Some_0, s1[n].1) == Some((secret_data.meta@, secret_data.secret@)) }),
+    { unimplemented!() }
     /// vaultmem [lock_drops_key]
     #[verifier::external_body]
     pub fn lock(&mut self)
@@ -385,6 +421,8 @@ pub enum AccountError { NoFolderPassword(VaultId), Storage(ClientError), Authent
 impl core::fmt::Debug for AccountError { fn fmt(&self, f: &mut core::fmt::Formatter<'_>) -> core::fmt::Result { Ok(()) } }
 pub type AcResult<T> = core::result::Result<T, AccountError>;
 impl From<ClientError> for AccountError { #[verifier::external_body] fn from(e: ClientError) -> AccountError { AccountError::Storage(e) } }
+impl From<BackendError> for AccountError { #[verifier::external_body] fn from(e: BackendError) -> AccountError { AccountError::Other } }
+impl From<VaultError> for AccountError { #[verifier::external_body] fn from(e: VaultError) -> AccountError { AccountError::Other } }
 impl From<AuthnError> for AccountError { #[verifier::external_body] fn from(e: AuthnError) -> AccountError { AccountError::Authentication(e) } }
 impl From<LoginError> for AccountError { #[verifier::external_body] fn from(e: LoginError) -> AccountError { AccountError::Login(e) } }
 /// `sos_core::Paths`, `sos_backend::BackendTarget` — opaque
@@ -422,5 +460,83 @@ impl ClientFolderStorage for ClientStorage {
     fn account_log(&mut self) -> (r: ClResult<&mut VRwLock<AccountEventLog>>) { unimplemented!() }
     #[verifier::external_body]
     fn read_vault(&self, id: &VaultId) -> (r: ClResult<Vault>) { unimplemented!() }
+    #[verifier::external_body]
+    fn read_login_vault(&self) -> (r: ClResult<Vault>) { unimplemented!() }
 }
 impl ClientAccountStorage for ClientStorage {}
+
+// ---- convert_folder_cipher (crates/account/src/convert.rs) ------------------------------------------------
+/// the description a VaultMeta carries (vault.rs:40)
+pub uninterp spec fn vm_description(m: VaultMetaV) -> Seq<char>;
+impl VaultMeta {
+    /// vault.rs:45 `&self.description`
+    #[verifier::external_body]
+    pub fn description(&self) -> (r: &str)
+        ensures r@ == vm_description(self@),
+    { unimplemented!() }
+}
+/// `Option<&Seed>::cloned` (Seed is Copy)
+#[verifier::external_body]
+pub fn seed_cloned(o: Option<&Seed>) -> (r: Option<Seed>)
+    ensures r == (match o { Some(x) => Some(*x), None => None }),
+{ unimplemented!() }
+impl From<AccessPoint> for Vault {
+    /// access_point.rs:181 -> vault access_point.rs `impl From<AccessPoint<E>> for Vault`: the vault held in memory
+    #[verifier::external_body]
+    fn from(value: AccessPoint) -> (r: Vault)
+        ensures r@ == value.vv(),
+    { unimplemented!() }
+}
+/// `sos_vault::BuilderCredentials` (builder.rs:11): the variant constructed here; `Shared { .. }` collapsed
+pub enum BuilderCredentials { Password(SecretString, Option<Seed>), Shared }
+impl VaultBuilder {
+    /// builder.rs:49 `new`: a fresh id, the default name, NO description, default flags / cipher / kdf
+    #[verifier::external_body]
+    pub fn new() -> (r: VaultBuilder)
+        ensures r.description is None,
+    { unimplemented!() }
+    /// builder.rs:98 `build` (read, not under contract): a default vault with id, name, flags, cipher, kdf from the builder;
+    /// `VaultMeta { date_created: now, description: self.description.unwrap_or_default() }` encrypted with the key of
+    /// `vault.symmetric(password, seed)` (vaultmem [fresh_salt]: a salt is set, the seed stored) and stored as the
+    /// header blob (`encrypt_meta`; reads back by Axiom AEAD).  Ok only for a symmetric cipher (vaultmem
+    /// [dispatch_symmetric_only]: `Vault::encrypt` with a symmetric key on X25519 is an error).
+    #[verifier::external_body]
+    pub fn build(self, credentials: BuilderCredentials) -> (r: VResult<Vault>)
+        ensures r is Ok && credentials is Password ==> ({ let v = r->Ok_0@; let pw = credentials->Password_0@;
+            &&& v.head.summary.id == self.id.0@ && v.head.summary.name == self.public_name@ && v.head.summary.flags == self.flags.b
+            &&& v.head.summary.cipher == self.cipher && v.head.summary.kdf == self.kdf && is_symmetric(self.cipher)
+            &&& v.secrets.len() == 0 && v.head.auth.salt is Some && v.head.auth.seed == (match credentials->Password_1 { Some(s) => Some(s.0@), None => None })
+            &&& v.head.meta is Some && opens(v, private_of(v, AccessKeyV::Password(pw)))
+            &&& meta_of(v, private_of(v, AccessKeyV::Password(pw))) matches Some(m) && vm_description(m) == (match self.description { Some(d) => d@, None => Seq::<char>::empty() })
+        }),
+    { unimplemented!() }
+}
+/// the iterator `Vault::keys` returns (vault.rs:805 `self.contents.data.keys()`: indexmap `Keys`, every id once, in order)
+#[verifier::external_body]
+pub struct VaultKeys<'a> { _p: core::marker::PhantomData<&'a Vault> }
+impl<'a> VaultKeys<'a> {
+    pub uninterp spec fn rest(&self) -> Seq<&'a Uuid>;
+}
+impl<'a> Iterator for VaultKeys<'a> {
+    type Item = &'a Uuid;
+    /// contract inherited from vstd's Iterator specification (`IteratorSpec`)
+    #[verifier::external_body]
+    fn next(&mut self) -> (r: Option<&'a Uuid>) { unimplemented!() }
+}
+impl<'a> vstd::std_specs::iter::IteratorSpecImpl for VaultKeys<'a> {
+    open spec fn obeys_prophetic_iter_laws(&self) -> bool { true }
+    #[verifier::prophetic]
+    open spec fn remaining(&self) -> Seq<&'a Uuid> { self.rest() }
+    #[verifier::prophetic]
+    open spec fn will_return_none(&self) -> bool { true }
+    open spec fn decrease(&self) -> Option<nat> { Some(self.rest().len()) }
+    open spec fn peek(&self, i: int) -> Option<&'a Uuid> {
+        if 0 <= i < self.rest().len() { Some(self.rest()[i]) } else { None }
+    }
+}
+impl Vault {
+    #[verifier::external_body]
+    pub fn keys(&self) -> (r: VaultKeys<'_>)
+        ensures r.rest().len() == self@.secrets.len(), forall|i: int| 0 <= i < r.rest().len() ==> (#[trigger] r.rest()[i]).0@ == self@.secrets[i].0,
+    { unimplemented!() }
+}
